@@ -588,6 +588,69 @@ pub fn plan(thorough: bool) -> Plan {
     Plan { singles, single_nodes: single_n, pair_pats, triple_pats, n_pairs, n_triples, uses_by_nodes, max_use_nodes_single: use_single, max_use_nodes_multi: use_multi, eval_upto, descr }
 }
 
+/// literal data of every kind in patterns against every literal datum in uses: a literal matches
+/// only an equal datum (same type, same exactness, same spelling class) - at top level of the
+/// pattern, in a sub-list, in a vector and under an ellipsis
+fn literal_data() -> Vec<Sx> {
+    vec![
+        Sx::Int(1), Sx::Int(2), Sx::Int(-1), Sx::Int(0), Sx::Real("1.0".into()), Sx::Real("1.5".into()), Sx::Real("0.5".into()), Sx::Real("0.0".into()), Sx::Rat(1, 2), Sx::Rat(3, 2),
+        Sx::Bool(true), Sx::Bool(false), Sx::Str("s".into()), Sx::Str("t".into()), Sx::Str("1".into()), Sx::Str(String::new()), Sx::Char('a'), Sx::Char('b'), Sx::Char('1'), Sx::List(vec![]),
+    ]
+}
+
+fn literal_data_matrix(acc: &mut Acc) {
+    let mut it = Interp::new().expect("interpreter");
+    let d = literal_data();
+    let wrap = |k: usize, x: &Sx| -> Sx {
+        match k {
+            0 => x.clone(),
+            1 => Sx::List(vec![x.clone()]),
+            2 => Sx::Vector(vec![x.clone()]),
+            _ => Sx::List(vec![sym("foo"), x.clone(), x.clone()]),
+        }
+    };
+    for (pi, p) in d.iter().enumerate() {
+        for k in 0..4 {
+            // an empty-list literal is a (sub)pattern, not a datum: only as a wrapped element
+            let pat = Sx::List(vec![sym("m"), wrap(k, p)]);
+            let rs = RuleSet {
+                literals: vec![],
+                rules: vec![(pat, quote(sym("hit"))), (Sx::List(vec![sym("m"), sym("x")]), quote(Sx::List(vec![sym("miss"), sym("x")])))],
+            };
+            it.fresh_frame();
+            acc.count("literal-data-rule-sets", 1);
+            let t = match install(&mut it, &rs) {
+                Ok(t) => t,
+                Err(why) => {
+                    acc.mismatch(Mismatch { idx: 9_000_000_000 + pi as u64, case: rs.define_text(), expected: "rule set accepted".into(), observed: why, payload: json!({"define": rs.define_text(), "use": null}) }, None);
+                    continue;
+                }
+            };
+            for (ui, u) in d.iter().enumerate() {
+                let use_ = Sx::List(vec![sym("m"), wrap(k, u)]);
+                for (path, v) in [("transform", judge_direct(&t, &rs, &use_)), ("eval", judge_eval(&mut it, &rs, &use_))] {
+                    acc.evals += 1;
+                    acc.count("literal-data-matrix", 1);
+                    match v {
+                        Verdict::Ok(h) => acc.distinct_hash(h),
+                        Verdict::Excluded(why) => acc.exclude(why, || format!("{}  {}", rs.define_text(), use_)),
+                        Verdict::Bad(exp, obs) => acc.mismatch(
+                            Mismatch {
+                                idx: 9_000_000_000 + (pi * 1000 + k * 100 + ui) as u64,
+                                case: format!("[literal-data] {}\n{}", rs.define_text(), use_),
+                                expected: exp,
+                                observed: format!("[{}] {}", path, obs),
+                                payload: json!({"define": rs.define_text(), "use": use_.to_string(), "literals": rs.literals, "rules": rs.rules.iter().map(|(p, t)| vec![p.to_string(), t.to_string()]).collect::<Vec<_>>()}),
+                            },
+                            None,
+                        ),
+                    }
+                }
+            }
+        }
+    }
+}
+
 pub fn run(ctx: &Ctx) -> i32 {
     let pl = plan(ctx.thorough());
     let total = std::env::var("C04_LIMIT").ok().and_then(|s| s.parse().ok()).unwrap_or(pl.total());
@@ -660,6 +723,8 @@ pub fn run(ctx: &Ctx) -> i32 {
             }
         },
     );
+    let mut acc = acc;
+    literal_data_matrix(&mut acc);
     report::finish(
         acc,
         RunInfo {
@@ -667,7 +732,7 @@ pub fn run(ctx: &Ctx) -> i32 {
             tier: ctx.tier_name(),
             seed: ctx.seed,
             exhaustive: true,
-            rule: "every argument pattern (variables, _, a literal identifier, literal data 1 and #t, sub-lists and vectors of 1-3 elements nested <= 2, optional final ellipsis, no ellipsis under an ellipsis) up to the node bound, with every canonical template (flat dump, structure-preserving copy, vector, list sub-template under ellipsis / duplicated ellipsis variable) and literal sets () and (lit); all ordered pairs (thorough: triples) of small rules; against every use (0-4 arguments over 1 2 #t \"s\" lit foo with lists and vectors nested <= 2) up to the node bound; distinct = distinct expansions".into(),
+            rule: "every argument pattern (variables, _, a literal identifier, literal data 1 and #t, sub-lists and vectors of 1-3 elements nested <= 2, optional final ellipsis, no ellipsis under an ellipsis) up to the node bound, with every canonical template (flat dump, structure-preserving copy, vector, list sub-template under ellipsis / duplicated ellipsis variable) and literal sets () and (lit); all ordered pairs (thorough: triples) of small rules; against every use (0-4 arguments over 1 2 #t \"s\" lit foo with lists and vectors nested <= 2) up to the node bound; plus the literal-data matrix: each of 20 literal data (exact / inexact / ratio numbers of equal value, booleans, strings, characters, the empty list) as a pattern element at top level, in a sub-list, in a vector and twice in a list, against each of the 20 as the use; distinct = distinct expansions".into(),
             bounds: pl.descr.clone(),
             assumptions: vec!["refsyn written from R7RS 4.3.2 for the supported class; (rule set, use) pairs on which 'zero or more' and 'one or more' ellipsis semantics differ are outside the class and only counted".into()],
             wall_s: ctx.elapsed(),
